@@ -1,6 +1,7 @@
 package rules
 
 import (
+	"sort"
 	"fmt"
 	"go/token"
 	"go/types"
@@ -20,6 +21,8 @@ func c17(c *eng.Ctx, r *eng.Report) {
 		"R17.3 PackForCast never returns more than the per-block limit, checkNonce sorts first, never packs a transaction on the `expected < nonce` edge, and every transaction that advances its sender's expected nonce is packed; " +
 		"R17.4 every field of TxPool/simpleContainer is of a thread-safe type, immutable after construction, or accessed only with its mutex held (lockset over all access sites, helper functions checked at their call sites). " +
 		"R17.8 the pending container's remove takes out every hash it is handed: on every path to a return the whole parameter list — not a window of it — has been passed to the map's Removes (directly or through a helper of the container that does so); a transaction that is marked executed but stays pending is packed again; " +
+		"R17.11 an executed record is keyed by the hash its receipt names: in MarkExecuted the key of every batch.Put and every hash queued for removal from the pending set is the ranged receipt's TxHash — receipts exist only for transactions that were not evicted, so the i-th receipt is not the i-th transaction of the block, and pairing by index records an evicted transaction as executed while the last executed one stays pending and is packed again; " +
+		"R17.12 the pool's mutexes are always taken in one order: over the service package, if some function acquires mutex B (itself or through a callee) while it holds mutex A, no function acquires A while it holds B — AddTransaction holding an admission lock across refreshGateNonce (batchLock) while MarkExecuted holds batchLock (deferred) across the removal under the admission lock blocks both for ever; " +
 		"R17.10 whether a transaction re-enters the pool depends on the pool alone: (*TxPool).add — the path UnMarkExecuted uses for the transactions of a removed block — and the service functions under it consult no account state (no AccountDBManager, no AccountDB getter); while a block is being removed the latest state is still the state after it, in which each of its nonce-checked transactions looks already used, so a state-dependent admission test there drops them: neither executed nor pending; " +
 		"R17.9 MarkExecuted processes every block it is handed: no return of MarkExecuted depends on the pool's own state (a remembered `last marked` block, a cache) — after a reorg that comes back to the same block the second MarkExecuted must write the executed records again, UnMarkExecuted having deleted them; " +
 		"R17.6 what the pool iterates over is one atomic snapshot of the pending map: every simpleContainer method that hands out a slice returns the result of a single call on the underlying map (possibly re-sliced), never a slice assembled from separate per-key lookups — between listing the keys and looking them up MarkExecuted or an eviction may remove an entry, and the hole is a nil the packer type-asserts; " +
@@ -83,6 +86,8 @@ func c17(c *eng.Ctx, r *eng.Report) {
 	c17RemoveAll(c, r)
 	c17MarkEveryBlock(c, r)
 	c17ReAddSeesOnlyThePool(c, r)
+	c17MarkKeyedByReceipt(c, r)
+	c17LockOrder(c, r)
 	r.Min("R17.7", 3)
 	batchResetAs(c, r, "R17.7", "service", 2)
 }
@@ -851,4 +856,182 @@ func forwardsTo(f, target *ssa.Function) bool {
 		}
 	}
 	return true
+}
+
+// c17MarkKeyedByReceipt: see R17.11.
+func c17MarkKeyedByReceipt(c *eng.Ctx, r *eng.Report) {
+	const rule = "R17.11"
+	r.Min(rule, 1)
+	fn := c.Func("service", "(*TxPool).MarkExecuted")
+	if !r.Anchor(fn != nil, rule, "service.(*TxPool).MarkExecuted") {
+		return
+	}
+	n := 0
+	for _, s := range eng.Sites(fn) {
+		if !strings.HasSuffix(s.Name(), "Batch.Put") || !strings.HasSuffix(eng.Desc(s.Common().Value), ".batch") && !(len(s.Common().Args) > 0 && strings.Contains(eng.Desc(s.Common().Args[0]), ".batch")) {
+			continue
+		}
+		n++
+		args := s.Common().Args
+		key := args[len(args)-2]
+		d := eng.Desc(key)
+		r.Check(strings.Contains(d, ".TxHash"), rule, fmt.Sprintf("mark-key:receipt-hash#%d", n-1), c.Pos(s.Pos()), "the executed record is written under receipt.TxHash", "MarkExecuted writes the executed record under "+d+", not under the hash the receipt names: evicted transactions have no receipt, so with an evicted transaction ahead of executed ones the indexes shift — the evicted transaction is recorded as executed, and the last executed one gets no record, stays pending and is packed again for the next block")
+	}
+	if n == 0 {
+		r.Fail(rule, "mark-key:none", c.Pos(fn.Pos()), "no batch.Put in MarkExecuted: the rule has lost its anchor")
+	}
+}
+
+// c17LockOrder: see R17.12.
+func c17LockOrder(c *eng.Ctx, r *eng.Report) {
+	const rule = "R17.12"
+	r.Min(rule, 1)
+	fns := c.PkgFuncs("service")
+	mutexOf := func(s eng.Site) (string, string) {
+		nm := s.Name()
+		var op string
+		switch {
+		case strings.HasSuffix(nm, "Mutex).Lock"), strings.HasSuffix(nm, "RWMutex).RLock"):
+			op = "lock"
+		case strings.HasSuffix(nm, "Mutex).Unlock"), strings.HasSuffix(nm, "RWMutex).RUnlock"):
+			op = "unlock"
+		default:
+			return "", ""
+		}
+		if len(s.Common().Args) == 0 {
+			return "", ""
+		}
+		t, f := eng.FieldOf(s.Common().Args[0])
+		if f == "" {
+			return "", ""
+		}
+		return t + "." + f, op
+	}
+	// direct acquisitions per function, then the transitive closure over package-local static calls
+	acq := map[*ssa.Function]map[string]bool{}
+	for _, fn := range fns {
+		acq[fn] = map[string]bool{}
+		for _, s := range eng.Sites(fn) {
+			if m, op := mutexOf(s); op == "lock" {
+				acq[fn][m] = true
+			}
+		}
+	}
+	for changed := true; changed; {
+		changed = false
+		for _, fn := range fns {
+			for _, s := range eng.Sites(fn) {
+				cal := s.Common().StaticCallee()
+				if cal == nil || acq[cal] == nil || cal == fn {
+					continue
+				}
+				if _, isGo := s.Instr.(*ssa.Go); isGo {
+					continue
+				}
+				for m := range acq[cal] {
+					if !acq[fn][m] {
+						acq[fn][m] = true
+						changed = true
+					}
+				}
+			}
+		}
+	}
+	type edge struct{ a, b string }
+	edges := map[edge]string{}
+	for _, fn := range fns {
+		sites := eng.Sites(fn)
+		for _, l := range sites {
+			a, op := mutexOf(l)
+			if op != "lock" {
+				continue
+			}
+			_, isDefer := l.Instr.(*ssa.Defer)
+			if isDefer {
+				continue
+			}
+			// may-hold: some path leads from the Lock to `at` without a (non-deferred) Unlock of the same mutex
+			isRelease := func(in ssa.Instruction) bool {
+				if _, d := in.(*ssa.Defer); d {
+					return false
+				}
+				call, ok := in.(ssa.CallInstruction)
+				if !ok {
+					return false
+				}
+				for _, u := range sites {
+					if u.Instr == in {
+						if m, op2 := mutexOf(u); op2 == "unlock" && m == a {
+							return true
+						}
+					}
+				}
+				_ = call
+				return false
+			}
+			reach := map[ssa.Instruction]bool{}
+			{
+				seenB := map[*ssa.BasicBlock]bool{}
+				var scan func(b *ssa.BasicBlock, from int)
+				scan = func(b *ssa.BasicBlock, from int) {
+					for i := from; i < len(b.Instrs); i++ {
+						in := b.Instrs[i]
+						if isRelease(in) {
+							return
+						}
+						reach[in] = true
+					}
+					for _, nx := range b.Succs {
+						if !seenB[nx] {
+							seenB[nx] = true
+							scan(nx, 0)
+						}
+					}
+				}
+				scan(l.Instr.Block(), eng.InstrIndex(l.Instr)+1)
+			}
+			held := func(at ssa.Instruction) bool { return reach[at] }
+			for _, s := range sites {
+				if _, isGo := s.Instr.(*ssa.Go); isGo {
+					continue
+				}
+				if _, isDefer2 := s.Instr.(*ssa.Defer); isDefer2 {
+					continue
+				}
+				if !held(s.Instr) {
+					continue
+				}
+				var bs []string
+				if b, op2 := mutexOf(s); op2 == "lock" {
+					bs = append(bs, b)
+				} else if cal := s.Common().StaticCallee(); cal != nil && acq[cal] != nil {
+					for b := range acq[cal] {
+						bs = append(bs, b)
+					}
+				}
+				for _, b := range bs {
+					if b != a {
+						if _, ok := edges[edge{a, b}]; !ok {
+							edges[edge{a, b}] = eng.FuncName(fn) + " at " + c.Pos(s.Pos())
+						}
+					}
+				}
+			}
+		}
+	}
+	var keys []edge
+	for e := range edges {
+		keys = append(keys, e)
+	}
+	sort.Slice(keys, func(i, j int) bool { return keys[i].a+keys[i].b < keys[j].a+keys[j].b })
+	bad := 0
+	for _, e := range keys {
+		if w2, ok := edges[edge{e.b, e.a}]; ok && e.a < e.b {
+			bad++
+			r.Fail(rule, "lock-order:"+e.a+"<>"+e.b, "", e.a+" is held while "+e.b+" is acquired ("+edges[e]+") and "+e.b+" is held while "+e.a+" is acquired ("+w2+"): when the two sections overlap — a submission during MarkExecuted's batch write — each waits for the other for ever, and every later add, mark or unmark hangs behind them")
+		}
+	}
+	if bad == 0 {
+		r.Pass(rule, "lock-order:acyclic", "", fmt.Sprintf("%d held-while-acquiring pair(s) in package service, no pair in both orders", len(keys)))
+	}
 }
